@@ -1,1 +1,207 @@
-//! reference model `negotiate` — not built yet.
+//! Reference model of `Accept-Encoding` (RFC 7231 §5.3.4, list syntax of RFC 7230 §7), written
+//! from the RFC text only.  It answers one question per content-coding: *may a response carry this
+//! coding for this request?* — `Yes`, `No`, or `Ambiguous` where the header is malformed or
+//! contradicts itself (the oracle then accepts any outcome and counts the case).  It never ranks:
+//! "highest q preferred" is a SHOULD and the server's own preference order is its business.
+//!
+//! RFC 7231 §5.3.4:
+//!  1. no `Accept-Encoding` field at all ⇒ any content-coding is acceptable;
+//!  2. no content-coding ("identity") is acceptable by default unless specifically excluded by
+//!     `identity;q=0`, or by `*;q=0` without a more specific entry for `identity`;
+//!  3. a coding listed in the field is acceptable unless its qvalue is 0; `*` matches every coding
+//!     not explicitly listed;
+//!  4. an empty combined field value means the user agent wants no content-coding (identity only).
+//! A coding that is neither listed nor matched by `*` is not acceptable (identity excepted, rule 2).
+
+use std::collections::BTreeMap;
+
+#[derive(Clone, Copy, Debug, PartialEq, Eq)]
+pub enum Verdict {
+    Yes,
+    No,
+    /// malformed or self-contradictory header: the RFC gives no single answer
+    Ambiguous,
+}
+
+#[derive(Clone, Debug, Default)]
+pub struct AcceptEncoding {
+    /// at least one `Accept-Encoding` field line was present
+    pub present: bool,
+    /// some list element did not match `codings [ weight ]`
+    pub malformed: bool,
+    /// (lower-cased coding or "*", q in thousandths) in order of appearance
+    pub items: Vec<(String, u16)>,
+}
+
+fn is_tchar(b: u8) -> bool {
+    b.is_ascii_alphanumeric() || b"!#$%&'*+-.^_`|~".contains(&b)
+}
+
+fn trim_ows(mut s: &[u8]) -> &[u8] {
+    while let [b' ' | b'\t', rest @ ..] = s {
+        s = rest;
+    }
+    while let [rest @ .., b' ' | b'\t'] = s {
+        s = rest;
+    }
+    s
+}
+
+/// qvalue = ( "0" [ "." 0*3DIGIT ] ) / ( "1" [ "." 0*3("0") ] )   → thousandths
+fn parse_qvalue(s: &[u8]) -> Option<u16> {
+    let (&first, rest) = s.split_first()?;
+    if first != b'0' && first != b'1' {
+        return None;
+    }
+    let mut q = (first - b'0') as u16 * 1000;
+    if rest.is_empty() {
+        return Some(q);
+    }
+    if rest[0] != b'.' || rest.len() > 4 {
+        return None;
+    }
+    let mut scale = 100;
+    for &d in &rest[1..] {
+        if !d.is_ascii_digit() || (first == b'1' && d != b'0') {
+            return None;
+        }
+        q += (d - b'0') as u16 * scale;
+        scale /= 10;
+    }
+    Some(q)
+}
+
+/// element = codings [ OWS ";" OWS "q=" qvalue ]      ("q" is case-insensitive, RFC 5234 §2.3)
+fn parse_element(e: &[u8]) -> Option<(String, u16)> {
+    let n = e.iter().take_while(|&&b| is_tchar(b)).count();
+    if n == 0 {
+        return None;
+    }
+    let coding = String::from_utf8_lossy(&e[..n]).to_ascii_lowercase();
+    if coding.contains('*') && coding != "*" {
+        // "*" is a tchar, so "gz*" is a syntactically valid token; nothing defines its meaning
+        return None;
+    }
+    let rest = trim_ows(&e[n..]);
+    if rest.is_empty() {
+        return Some((coding, 1000));
+    }
+    if rest[0] != b';' {
+        return None;
+    }
+    let w = trim_ows(&rest[1..]);
+    if w.len() < 3 || !(w[0] == b'q' || w[0] == b'Q') || w[1] != b'=' {
+        return None;
+    }
+    Some((coding, parse_qvalue(&w[2..])?))
+}
+
+/// `lines`: the values of every `Accept-Encoding` field line of the request, in order.
+pub fn parse(lines: &[&[u8]]) -> AcceptEncoding {
+    let mut ae = AcceptEncoding { present: !lines.is_empty(), ..Default::default() };
+    for line in lines {
+        for raw in line.split(|&b| b == b',') {
+            let e = trim_ows(raw);
+            if e.is_empty() {
+                // RFC 7230 §7: recipients must accept a reasonable number of empty list elements
+                continue;
+            }
+            match parse_element(e) {
+                Some(it) => ae.items.push(it),
+                None => ae.malformed = true,
+            }
+        }
+    }
+    ae
+}
+
+impl AcceptEncoding {
+    fn explicit(&self, name: &str) -> Option<Verdict> {
+        let mut v: Option<Verdict> = None;
+        for (c, q) in &self.items {
+            if c == name {
+                let this = if *q > 0 { Verdict::Yes } else { Verdict::No };
+                v = Some(match v {
+                    None => this,
+                    Some(prev) if prev == this => this,
+                    Some(_) => Verdict::Ambiguous,
+                });
+            }
+        }
+        v
+    }
+
+    /// May the response use content-coding `coding` (lower case; "identity" = no coding)?
+    pub fn permits(&self, coding: &str) -> Verdict {
+        if !self.present {
+            return Verdict::Yes;
+        }
+        if self.malformed {
+            return Verdict::Ambiguous;
+        }
+        if let Some(v) = self.explicit(coding) {
+            return v;
+        }
+        match self.explicit("*") {
+            Some(v) => v,
+            None if coding == "identity" => Verdict::Yes,
+            None => Verdict::No,
+        }
+    }
+
+    /// Is `coding` acceptable only through the wildcard (not named in the header)?
+    pub fn via_wildcard(&self, coding: &str) -> bool {
+        self.present && !self.malformed && self.explicit(coding).is_none() && self.explicit("*") == Some(Verdict::Yes)
+    }
+
+    /// Verdict for every coding of `supported`.
+    pub fn verdicts(&self, supported: &[&str]) -> BTreeMap<String, Verdict> {
+        supported.iter().map(|c| (c.to_string(), self.permits(c))).collect()
+    }
+
+    /// The weight (thousandths) that applies to `coding`: the largest q of the items naming it,
+    /// else the largest q of a `*` item, else None.  Used for statistics only.
+    pub fn q_of(&self, coding: &str) -> Option<u16> {
+        let named = self.items.iter().filter(|(c, _)| c == coding).map(|x| x.1).max();
+        named.or_else(|| self.items.iter().filter(|(c, _)| c == "*").map(|x| x.1).max())
+    }
+}
+
+/// Self-check against the examples of RFC 7231 §5.3.4 and the rules above.  Returns the first
+/// failing example.
+pub fn self_check() -> Result<(), String> {
+    use Verdict::*;
+    let cases: &[(&[&str], &[(&str, Verdict)])] = &[
+        (&[], &[("gzip", Yes), ("identity", Yes), ("br", Yes)]),
+        (&[""], &[("gzip", No), ("identity", Yes)]),
+        (&["compress, gzip"], &[("gzip", Yes), ("compress", Yes), ("br", No), ("identity", Yes)]),
+        (&["*"], &[("gzip", Yes), ("identity", Yes)]),
+        (&["compress;q=0.5, gzip;q=1.0"], &[("gzip", Yes), ("compress", Yes), ("deflate", No), ("identity", Yes)]),
+        (&["gzip;q=1.0, identity; q=0.5, *;q=0"], &[("gzip", Yes), ("identity", Yes), ("br", No)]),
+        (&["gzip, *;q=0"], &[("gzip", Yes), ("identity", No), ("br", No)]),
+        (&["identity;q=0"], &[("identity", No), ("gzip", No)]),
+        (&["*;q=0.5, identity;q=0"], &[("identity", No), ("gzip", Yes), ("br", Yes)]),
+        (&["identity;q=0, *"], &[("identity", No), ("zstd", Yes)]),
+        (&["*;q=0, identity;q=0.001"], &[("identity", Yes), ("gzip", No)]),
+        (&["GZip ; Q=0.000 ,, br"], &[("gzip", No), ("br", Yes), ("identity", Yes)]),
+        (&["gzip;q=0", "gzip"], &[("gzip", Ambiguous), ("identity", Yes)]),
+        (&["gzip", "br;q=0"], &[("gzip", Yes), ("br", No)]),
+        (&["gzip;q=1.001"], &[("gzip", Ambiguous), ("identity", Ambiguous)]),
+        (&["gzip;q=0.5555"], &[("gzip", Ambiguous)]),
+        (&["gzip;q=.5"], &[("gzip", Ambiguous)]),
+        (&["gzip;level=3"], &[("gzip", Ambiguous)]),
+        (&["gzip br"], &[("gzip", Ambiguous)]),
+        (&["gzip;q=1.000, br;q=0.001"], &[("gzip", Yes), ("br", Yes)]),
+    ];
+    for (lines, want) in cases {
+        let raw: Vec<&[u8]> = lines.iter().map(|s| s.as_bytes()).collect();
+        let ae = parse(&raw);
+        for (c, v) in want.iter() {
+            let got = ae.permits(c);
+            if got != *v {
+                return Err(format!("Accept-Encoding {:?}: permits({c}) = {:?}, RFC reading says {:?}", lines, got, v));
+            }
+        }
+    }
+    Ok(())
+}
